@@ -19,8 +19,15 @@ LEVEL_NOTE = (
 )
 TECHNIQUE = "property-based testing: Hypothesis random reconciliations/sizes/parameters, geometric invariants and a mirror (metamorphic) relation"
 DESIGN_REF = "DESIGN.md section 6 (C14)"
+EXHAUSTIVE_RULE = {
+    "quick": "(a) 36 variants of every committed regression witness of this property (species tree and/or object tree mirrored left-right, sizes kept, "
+             "exchanged, minimal or rotated); (b) every plane binary input <=3x3 leaves and a quarter of 4x3: all valid mappings drawn in sequence from "
+             "shared tree objects",
+    "thorough": "the same",
+}
+EXHAUSTIVE_COMPLETE = False  # the random layer is not exhaustive
 RULE = (
-    "Hypothesis cases as C13 (<=10 object / <=6 species leaves, constructed valid mapping, optional labels, 24 sizes in [1,100] by call position, "
+    "Witness-variant and walk layers (see exhaustive_layer).  Hypothesis cases as C13 (<=10 object / <=6 species leaves; a third of the cases 6..10 species leaves, <=12 object leaves, constructed valid mapping, optional labels, 24 sizes in [1,100] by call position, "
     "numeric DrawParams fields perturbed in (0,50]).  Per case, both orientations: all rect/trunk/anchor/branch coordinates finite; for every internal "
     "species the two child rects do not overlap and lie inside the parent's rect; no two trunks overlap; anchors exist for speciation children in the "
     "child layouts, for the kept child of a loss, for duplication/transfer children in the same layout, for transferred children in their species, "
@@ -33,7 +40,61 @@ BUDGET = {"quick": {"random": 5000}, "thorough": {"random": 60000}}
 
 
 def strategy(tier):
-    return rc.render_case(max_obj=10, max_sp=6, max_fam=4)
+    # two thirds as C13; one third on wide species trees (6..10 leaves): trunks can only collide with the trunk of a
+    # *cousin* species, which needs >= 5 species (measured on the pre-F9 tree and on variants of its repair: about 5 in
+    # 10 000 such layouts against fewer than 1 in 20 000 with <= 6 species)
+    from hypothesis import strategies as st
+
+    return st.one_of(rc.render_case(max_obj=10, max_sp=6, max_fam=4), rc.render_case(max_obj=10, max_sp=6, max_fam=4),
+                     rc.render_case(max_obj=12, max_sp=10, min_sp=6, max_fam=2))
+
+
+def exhaustive(tier):
+    return [("neigh", 0, 1)] + [("walk", i, 16) for i in range(16)]
+
+
+def _reflect(newick):
+    from ..plain import parse_newick
+
+    t = parse_newick(newick)
+    for n in t.nodes():
+        t.children[n].reverse()
+    return t.to_newick()
+
+
+def run_job(job):
+    kind, idx, mod = job
+    if kind == "neigh":
+        # symmetric and re-sized variants of every committed regression witness of this property: the left/right (and
+        # object child order) mirror images, the sizes rotated / exchanged / all minimal
+        from ..runner import load_known, load_replay
+
+        for finding in load_known():
+            for wit in finding.get("witnesses", []):
+                if ID not in wit["properties"]:
+                    continue
+                base = load_replay(wit["path"])["case"]
+                for rs in (False, True):
+                    for ro in (False, True):
+                        var = dict(base)
+                        if rs:
+                            var["species_tree"] = _reflect(base["species_tree"])
+                        if ro:
+                            var["object_tree"] = _reflect(base["object_tree"])
+                        sizes = [list(x) for x in base["_sizes"]]
+                        for name, sz in [("same", sizes), ("exchanged", [[h, w] for w, h in sizes]), ("minimal", [[1.0, 1.0]] * len(sizes))] + \
+                                        [(f"rotated{k}", sizes[k:] + sizes[:k]) for k in (1, 2, 3, 5, 7, 11)]:
+                            yield dict(var, _sizes=sz, _history=False, _variant=f"{finding['id']}:species{'-mirrored' if rs else ''}:objects{'-mirrored' if ro else ''}:sizes-{name}")
+        return
+    # all valid mappings of small inputs drawn one after the other from shared tree objects (as C13)
+    from . import c13
+
+    for case in c13.run_job(("quick", idx, mod)):
+        yield case
+
+
+def strategy_kw(**kw):
+    return rc.render_case(**kw)
 
 
 def close(a, b):
@@ -81,11 +142,26 @@ def mirrored(values):
 def check(case):
     base = {k: v for k, v in case.items() if not k.startswith("_")}
     inst = Instance(base, label=False)
-    m = case["_mapping"]
+    if case.get("_kind") == "walk":
+        shared = {}
+        n = 0
+        nontrivial = False
+        for m in inst.all_mappings():
+            res = _check_mapping(dict(case, _mapping=m), inst, m, shared)
+            nontrivial = nontrivial or res.nontrivial
+            n += 1
+        return Result(nontrivial, ["walk", f"species={min(len(inst.snodes), 7)}"], evals=4 * n)
+    res = _check_mapping(case, inst, case["_mapping"], None)
+    if case.get("_variant"):
+        res.labels.append("witness_variant")
+    return res
+
+
+def _check_mapping(case, inst, m, shared):
     _pat, counts = inst.rec_profile(m)
     lays = {}
     for orientation, swap in (("VERTICAL", False), ("HORIZONTAL", True)):
-        out, lay, _code, _params, _stub = rc.compute(case, orientation, swap=swap)
+        out, lay, _code, _params, _stub = rc.compute(case, orientation, swap=swap, shared=shared)
         tag = orientation.lower()
         lays[orientation] = lay
         for key, vals in flat(lay):
@@ -131,7 +207,7 @@ def check(case):
                     raise Violation(f"layout.{tag}.missing-anchor", observed=kind, expected="every referenced anchor exists",
                                     extra={"species": sp.name})
         # determinism: fresh parse, same numbers
-        _o2, lay2, _c2, _p2, _s2 = rc.compute(case, orientation, swap=swap, render=False)
+        _o2, lay2, _c2, _p2, _s2 = rc.compute(case, orientation, swap=swap, render=False, history=False)
         f1, f2 = flat(lay), flat(lay2)
         if f1 != f2:
             diff = next((a, b) for a, b in zip(f1, f2) if a != b) if len(f1) == len(f2) else ("length", (len(f1), len(f2)))
